@@ -17,6 +17,7 @@ package main
 // lexical; no symbolic link below the root points outside it.
 
 import (
+	"go/token"
 	"fmt"
 	"go/types"
 	"sort"
@@ -261,8 +262,131 @@ func (s *sanitiser) sanitised(v ssa.Value, at *ssa.BasicBlock, fn *ssa.Function,
 		return s.freeVarSanitised(x, fn, depth)
 	case *ssa.Parameter:
 		return s.paramSanitised(x, fn, depth)
+	case *ssa.Call:
+		// filepath.Join(S, rel) where rel, err := filepath.Rel(B, P), err known
+		// nil, and S, B, P are sanitised paths with P visited by a Walk rooted
+		// at B: P lies at or below B, so rel has no ".." element and the
+		// result lies at or below S
+		if calleeName(x.Common()) == "path/filepath.Join" && len(x.Common().Args) == 1 {
+			el := variadicElems(x.Common().Args[0])
+			if len(el) != 2 || el[0] == nil || el[1] == nil {
+				return false, "filepath.Join of other than a sanitised path and a relative path"
+			}
+			if ok, why := s.sanitised(el[0], at, fn, depth+1); !ok {
+				return false, "filepath.Join onto " + why
+			}
+			if ok, why := s.relativeBelow(el[1], at, fn, depth+1); !ok {
+				return false, "filepath.Join with " + why
+			}
+			return true, "a sanitised path joined with the position of a walked entry below its walk root"
+		}
+		return false, "result of " + calleeName(x.Common())
 	}
 	return false, fmt.Sprintf("%T %s", v, v.Name())
+}
+
+// relativeBelow: v is the error-free result of filepath.Rel(B, P) where P is
+// the path parameter of a Walk callback whose walk is rooted at the very
+// value B (so P is B or lies below it), both sanitised.
+func (s *sanitiser) relativeBelow(v ssa.Value, at *ssa.BasicBlock, fn *ssa.Function, depth int) (bool, string) {
+	ex, ok := v.(*ssa.Extract)
+	if !ok || ex.Index != 0 {
+		return false, fmt.Sprintf("%T %s, not the result of filepath.Rel", v, v.Name())
+	}
+	call, ok := ex.Tuple.(*ssa.Call)
+	if !ok || calleeName(call.Common()) != "path/filepath.Rel" || len(call.Common().Args) != 2 {
+		return false, "a value that is not the result of filepath.Rel"
+	}
+	var errV ssa.Value
+	for _, r := range *call.Referrers() {
+		if e2, ok := r.(*ssa.Extract); ok && e2.Index == 1 {
+			errV = e2
+		}
+	}
+	if errV == nil || (at != nil && at.Parent() == call.Parent() && !knownNilAt(errV, at)) {
+		return false, "the result of a filepath.Rel whose error has not been found nil"
+	}
+	base, target := call.Common().Args[0], call.Common().Args[1]
+	prm, ok := target.(*ssa.Parameter)
+	if !ok || fn.Parent() == nil || paramIndex(fn, prm) != 0 {
+		return false, "filepath.Rel of something other than a Walk callback's path"
+	}
+	// the walk this closure serves, and its root
+	var root ssa.Value
+	eachCall(fn.Parent(), func(site ssa.CallInstruction) {
+		cc := site.Common()
+		if n := calleeName(cc); (n == "path/filepath.Walk" || n == "path/filepath.WalkDir") && len(cc.Args) == 2 {
+			cb := cc.Args[1]
+			if ct, isCT := cb.(*ssa.ChangeType); isCT {
+				cb = ct.X
+			}
+			if mc, isMC := cb.(*ssa.MakeClosure); isMC && mc.Fn == fn {
+				root = cc.Args[0]
+			}
+		}
+	})
+	if root == nil {
+		return false, "filepath.Rel in a closure that is not a Walk callback"
+	}
+	if !sameCell(base, root, fn) {
+		return false, "filepath.Rel against a base that is not the root of the walk (the entry need not lie below it)"
+	}
+	if ok, why := s.sanitised(target, at, fn, depth+1); !ok {
+		return false, why
+	}
+	return true, "position of a walked entry relative to the walk's root"
+}
+
+// sameCell: inside closure fn, v reads the variable that the parent passes
+// (by value) as w: the same captured cell, or the same SSA value.
+func sameCell(v, w ssa.Value, fn *ssa.Function) bool {
+	if v == w {
+		return true
+	}
+	cellOf := func(x ssa.Value) ssa.Value {
+		if ld, ok := x.(*ssa.UnOp); ok && ld.Op == token.MUL {
+			return ld.X
+		}
+		return nil
+	}
+	cv, cw := cellOf(v), cellOf(w)
+	if cv == nil || cw == nil {
+		return false
+	}
+	if cv == cw {
+		return true
+	}
+	// v loads a free variable of fn; w loads the Alloc bound to it
+	if fv, ok := cv.(*ssa.FreeVar); ok && fn.Parent() != nil {
+		idx := -1
+		for i, f := range fn.FreeVars {
+			if f == fv {
+				idx = i
+			}
+		}
+		found := false
+		eachInstr(fn.Parent(), func(_ *ssa.BasicBlock, in ssa.Instruction) {
+			if mc, ok := in.(*ssa.MakeClosure); ok && mc.Fn == fn && idx >= 0 && idx < len(mc.Bindings) && mc.Bindings[idx] == cw {
+				found = true
+			}
+		})
+		if found {
+			// the cell must not be re-assigned between the walk and the use:
+			// exactly one store into it in the parent, none in the closure
+			stores := 0
+			for _, f := range withClosures(fn.Parent()) {
+				eachInstr(f, func(_ *ssa.BasicBlock, in ssa.Instruction) {
+					if st, ok := in.(*ssa.Store); ok {
+						if st.Addr == cw || st.Addr == ssa.Value(fv) {
+							stores++
+						}
+					}
+				})
+			}
+			return stores == 1
+		}
+	}
+	return false
 }
 
 func (s *sanitiser) fieldSanitised(n *types.Named, field int, depth int) (bool, string) {
